@@ -537,6 +537,12 @@ pub(crate) fn visit<'a, V: Visitor<'a>>(
     ctx: &mut VisitorContext<'a>,
     doc: &'a ExecutableDocument,
 ) {
+    #[cfg(async_graphql_verif)]
+    crate::__verif::bump(if v.mode() == VisitMode::Inline {
+        crate::__verif::PASS_INLINE
+    } else {
+        crate::__verif::PASS_NORMAL
+    });
     v.enter_document(ctx, doc);
 
     for (name, fragment) in &doc.fragments {
@@ -602,6 +608,12 @@ fn visit_selection<'a, V: Visitor<'a>>(
     ctx: &mut VisitorContext<'a>,
     selection: &'a Positioned<Selection>,
 ) {
+    #[cfg(async_graphql_verif)]
+    crate::__verif::bump(if v.mode() == VisitMode::Inline {
+        crate::__verif::SEL_INLINE
+    } else {
+        crate::__verif::SEL_NORMAL
+    });
     v.enter_selection(ctx, selection);
     match &selection.node {
         Selection::Field(field) => {
